@@ -9,10 +9,16 @@ import uharfbuzz as hb
 PUA = 0xF0000
 
 
-def make_font(data):
+def make_font(data, ppem=None, variations=None):
+    """ppem: device tables apply (hinted sizes); variations: {axis tag: user value} for variable fonts."""
     face = hb.Face(data)
     plain = hb.Font(face)
     font = hb.Font(face)
+    for f in (plain, font):
+        if ppem:
+            f.ppem = (ppem, ppem)
+        if variations:
+            f.set_variations(variations)
     funcs = hb.FontFuncs.create()
 
     def nominal(font_, cp, ud):
